@@ -14,6 +14,7 @@ import (
 type rng struct {
 	s         uint64
 	tsSeconds bool // generate BSON timestamps with non-zero seconds (known-finding class of C01)
+	poolPrev  []int64 // the int64 values of the previous pool document, by position (poolDoc)
 }
 
 func newRng(seed uint64) *rng { return &rng{s: seed*0x9E3779B97F4A7C15 + 0x1234567} }
